@@ -456,7 +456,7 @@ func (e *Engine) execFrom(st *state, fr *frame, b *ssa.BasicBlock, prev *ssa.Bas
 					}
 				}
 				if !inLoop {
-					return e.execLoop(st, fr, b, prev, body)
+					return e.execLoop(st, fr, b, prev, body, nil)
 				}
 			}
 		}
@@ -490,6 +490,11 @@ func (e *Engine) execFrom(st *state, fr *frame, b *ssa.BasicBlock, prev *ssa.Bas
 						return e.execFrom(st, fr, b.Succs[0], b, 0)
 					}
 					return e.execFrom(st, fr, b.Succs[1], b, 0)
+				}
+				if g := rotatedGuard(b, in, c); g != nil {
+					if outs := e.execLoop(st.clone(), fr.clone(), b.Succs[0], b, loopBody(b.Succs[0]), g); outs != nil {
+						return outs
+					}
 				}
 				e.paths++
 				if e.paths > e.MaxPaths {
@@ -647,7 +652,14 @@ func loopBody(h *ssa.BasicBlock) map[*ssa.BasicBlock]bool {
 }
 
 // execLoop summarises the loop with header h, entered from prev, as a REP event.
-func (e *Engine) execLoop(st *state, fr *frame, h, prev *ssa.BasicBlock, body map[*ssa.BasicBlock]bool) []*outcome {
+// rotGuard describes the pre-test of a rotated (bottom-tested) loop: `if first < N { do { … } while next < N }`,
+// the shape go/ssa gives to `for range n`. The guarded loop is summarised as one REP that may run zero times.
+type rotGuard struct {
+	exit *ssa.BasicBlock // where both the guard's false edge and the latch's false edge go
+	cond *Val            // the guard condition (first < N)
+}
+
+func (e *Engine) execLoop(st *state, fr *frame, h, prev *ssa.BasicBlock, body map[*ssa.BasicBlock]bool, guard *rotGuard) []*outcome {
 	lid := e.id()
 	lc := &loopCtx{header: h, body: body, id: lid}
 	// initial values of header phis
@@ -746,6 +758,27 @@ func (e *Engine) execLoop(st *state, fr *frame, h, prev *ssa.BasicBlock, body ma
 	}
 	// trip count
 	count, bounded := e.tripCount(h, ifr, lc, iters)
+	var latchExits []*outcome
+	if guard != nil {
+		// rotated loop: exits taken from the latch after a complete iteration are the normal end of the loop
+		var rest []*outcome
+		for _, o := range exits {
+			if o.exitTo == guard.exit && o.exitFrom != h && hasSucc(o.exitFrom, h) {
+				latchExits = append(latchExits, o)
+			} else {
+				rest = append(rest, o)
+			}
+		}
+		if len(latchExits) == 0 {
+			return nil
+		}
+		c, b, ok := e.latchTripCount(latchExits[0], h, lc, iters, guard)
+		if !ok {
+			return nil
+		}
+		count, bounded = c, b
+		exits = rest
+	}
 	rep := func(partial bool) *Event {
 		return &Event{ID: e.id(), Kind: EvRep, LoopID: lid, Count: count, Bounded: bounded, Iter: iters, Partial: partial, Pos: firstPos(h), Fn: fr.fn, Site: fr.site}
 	}
@@ -807,6 +840,34 @@ func (e *Engine) execLoop(st *state, fr *frame, h, prev *ssa.BasicBlock, body ma
 		}
 	}
 	var res []*outcome
+	if len(latchExits) > 0 {
+		o := latchExits[0]
+		nst := st.clone()
+		nst.mem = o.st.mem
+		nst.content = o.st.content
+		for k, v := range o.st.allocT {
+			nst.allocT[k] = v
+		}
+		ev := rep(false)
+		ev.NCond = len(nst.conds)
+		nst.events = append(nst.events, ev)
+		nfr := fr.clone()
+		for k, v := range o.fr.env {
+			nfr.env[k] = v
+		}
+		for _, pi := range phis {
+			nfr.env[pi.phi] = loopOut[pi.phi]
+			// the value carried to the next iteration is, after the last iteration, the loop-exit value
+			for i, p := range h.Preds {
+				if p == o.exitFrom {
+					if _, isConst := pi.phi.Edges[i].(*ssa.Const); !isConst {
+						nfr.env[pi.phi.Edges[i]] = loopOut[pi.phi]
+					}
+				}
+			}
+		}
+		res = append(res, e.execFrom(nst, nfr, o.exitTo, o.exitFrom, 0)...)
+	}
 	for _, o := range exits {
 		nst := st.clone()
 		nst.mem = o.st.mem
@@ -849,7 +910,7 @@ func (e *Engine) execLoop(st *state, fr *frame, h, prev *ssa.BasicBlock, body ma
 		}
 		res = append(res, &o2)
 	}
-	if len(exits) == 0 && len(aborts) == 0 {
+	if len(exits) == 0 && len(aborts) == 0 && len(latchExits) == 0 {
 		nst := st.clone()
 		nst.events = append(nst.events, rep(false))
 		res = append(res, &outcome{st: nst, kind: oTrunc, reason: "loop without exit in " + fr.fn.String()})
@@ -1361,4 +1422,85 @@ func (e *Engine) convert(st *state, x *Val, from, to types.Type) *Val {
 func (e *Engine) moduleGlobal(g *Val) bool {
 	gl, ok := g.Aux.(*ssa.Global)
 	return ok && gl.Pkg != nil && strings.HasPrefix(gl.Pkg.Pkg.Path(), modulePath)
+}
+
+func hasSucc(b, s *ssa.BasicBlock) bool {
+	for _, x := range b.Succs {
+		if x == s {
+			return true
+		}
+	}
+	return false
+}
+
+// rotatedGuard: block b ends in `if first < N` whose true edge enters a loop (from outside) and whose false edge
+// goes where the loop's latch goes when its own `next < N` test fails.
+func rotatedGuard(b *ssa.BasicBlock, in *ssa.If, c *Val) *rotGuard {
+	if c.Op != "binop" || c.Name != "<" || len(b.Succs) != 2 {
+		return nil
+	}
+	h, exit := b.Succs[0], b.Succs[1]
+	body := loopBody(h)
+	if body == nil || body[b] || body[exit] {
+		return nil
+	}
+	for blk := range body {
+		if blk == h {
+			continue
+		}
+		if iff, ok := blk.Instrs[len(blk.Instrs)-1].(*ssa.If); ok && len(blk.Succs) == 2 && blk.Succs[0] == h && blk.Succs[1] == exit {
+			if bo, ok := iff.Cond.(*ssa.BinOp); ok && bo.Op == token.LSS {
+				return &rotGuard{exit: exit, cond: c}
+			}
+		}
+	}
+	return nil
+}
+
+// latchTripCount: the latch continues while (lv + k) < N with lv stepping by one; the guard tested (init + k - 1) < N.
+// The loop body then runs max(0, N - (init + k - 1)) times.
+func (e *Engine) latchTripCount(o *outcome, h *ssa.BasicBlock, lc *loopCtx, iters []*Arm, guard *rotGuard) (*Val, string, bool) {
+	latch := o.exitFrom
+	iff, ok := latch.Instrs[len(latch.Instrs)-1].(*ssa.If)
+	if !ok {
+		return nil, "", false
+	}
+	c := e.val(o.fr, iff.Cond)
+	if c.Op != "binop" || c.Name != "<" {
+		return nil, "", false
+	}
+	tested, bound := c.Args[0], c.Args[1]
+	if bound.Contains(func(v *Val) bool { return v.Op == "loopvar" && v.ID == lc.id || v.Op == "unknown" }) {
+		return nil, "", false
+	}
+	a := affOf(tested)
+	if a.Top || len(a.Term) != 1 {
+		return nil, "", false
+	}
+	var lv *Val
+	for k, coef := range a.Term {
+		if coef != 1 {
+			return nil, "", false
+		}
+		lv = a.Sym[k]
+	}
+	if lv.Op != "loopvar" || lv.ID != lc.id || len(iters) == 0 {
+		return nil, "", false
+	}
+	for _, it := range iters {
+		n := it.Next[lv.Name]
+		if n == nil {
+			return nil, "", false
+		}
+		if k, ok := affOf(n).Add(affOf(lv), -1).IsConst(); !ok || k != 1 {
+			return nil, "", false
+		}
+	}
+	// guard: (init + k - 1) < bound
+	first := affOf(lv.Args[0]).Add(affConst(a.C-1), 1)
+	if !affOf(guard.cond.Args[0]).Equal(first) || !affOf(guard.cond.Args[1]).Equal(affOf(bound)) {
+		return nil, "", false
+	}
+	lc.ctrVar, lc.ctrOff, lc.ctrBound = lv, a.C-1, bound
+	return affToVal(affOf(bound).Add(first, -1)), "counted", true
 }
